@@ -47,6 +47,15 @@ def CustomOnly (f : State → State) : Prop :=
     (f s).id = s.id ∧ (f s).inc = s.inc ∧ (f s).conn = s.conn ∧ (f s).token = s.token ∧ (f s).cfg = s.cfg ∧
     (f s).policy = s.policy ∧ (f s).probe = s.probe ∧ (f s).sendCap = s.sendCap
 
+/-- the two custom-backlog leaves, for an invariant that accepts any write confined to handler state and
+    custom backlog -/
+theorem customLeaves_of {E : Env} {P : State → Prop} (h : ∀ f, CustomOnly f → Pres P (modS f)) :
+    (∀ h', Pres P (modS fun s => { s with hst := h' })) ∧
+    (∀ h' key data, Pres P (modS fun s =>
+      { s with hst := h', custom := addOrReplace s.custom E.handler.invalidates key data s.cfg.maxTx })) :=
+  ⟨fun _ => h _ (fun _ => ⟨rfl, rfl, rfl, rfl, rfl, rfl, rfl, rfl, rfl, rfl, rfl, rfl⟩),
+   fun _ _ _ => h _ (fun _ => ⟨rfl, rfl, rfl, rfl, rfl, rfl, rfl, rfl, rfl, rfl, rfl, rfl⟩)⟩
+
 /-- leaf obligations, identity/incarnation writers excluded. `okU u`: the update `u` may be stored (a pure
     side condition; `fun _ => True` for invariants that accept every update). -/
 structure Base (E : Env) (P : State → Prop) (okU : Member → Prop) : Prop where
@@ -60,7 +69,11 @@ structure Base (E : Env) (P : State → Prop) (okU : Member → Prop) : Prop whe
   sendMessage : ∀ d m, Pres P (sendMessage E d m)
   addUpdate : ∀ m, Pres P (addUpdate E m)
   modCtl : ∀ f, CtlKeep f → Pres P (modS f)
-  modCustom : ∀ f, CustomOnly f → Pres P (modS f)
+  /-- handler state only -/
+  setHst : ∀ h', Pres P (modS fun s => { s with hst := h' })
+  /-- a custom broadcast accepted by the handler is enqueued -/
+  addCustom : ∀ h' key data, Pres P (modS fun s =>
+    { s with hst := h', custom := addOrReplace s.custom E.handler.invalidates key data s.cfg.maxTx })
 
 section
 variable {E : Env} {P : State → Prop} {okU : Member → Prop} (B : Base E P okU)
@@ -164,7 +177,7 @@ theorem Base.leaveCluster : Pres P (Foca.leaveCluster E) := by
 theorem Base.addBroadcast (d : Bytes) : Pres P (Foca.addBroadcast E d) := by
   unfold Foca.addBroadcast
   pres
-  all_goals exact B.modCustom _ (fun _ => ⟨rfl, rfl, rfl, rfl, rfl, rfl, rfl, rfl, rfl, rfl, rfl, rfl⟩)
+  all_goals first | exact B.setHst _ | exact B.addCustom _ _ _
 
 theorem Base.setConfig (cfg : Config) : Pres P (Foca.setConfig cfg) := by
   unfold Foca.setConfig
@@ -188,7 +201,8 @@ theorem Base.customLoop (sender : Option Id) (fuel : Nat) (data : Bytes) : Pres 
     unfold Foca.customLoop
     pres
     all_goals first
-      | exact B.modCustom _ (fun _ => ⟨rfl, rfl, rfl, rfl, rfl, rfl, rfl, rfl, rfl, rfl, rfl, rfl⟩)
+      | exact B.setHst _
+      | exact B.addCustom _ _ _
       | exact ih _
 
 theorem Base.handleCustomBroadcasts (data : Bytes) (sender : Option Id) :
@@ -355,7 +369,6 @@ end
 
 /-- the leaf obligations of an invariant that ignores identity and incarnation -/
 structure Leaves (E : Env) (P : State → Prop) : Prop where
-  init : ∀ id pol cfg, P (State.init id pol cfg)
   membersApply : ∀ u, Pres P (membersApply u)
   membersApplyExistingIf : ∀ u cond, Pres P (membersApplyExistingIf u cond)
   membersNext : Pres P membersNext
@@ -363,7 +376,11 @@ structure Leaves (E : Env) (P : State → Prop) : Prop where
   sendMessage : ∀ d m, Pres P (sendMessage E d m)
   addUpdate : ∀ m, Pres P (addUpdate E m)
   modCtl : ∀ f, CtlOnly f → Pres P (modS f)
-  modCustom : ∀ f, CustomOnly f → Pres P (modS f)
+  /-- handler state only -/
+  setHst : ∀ h', Pres P (modS fun s => { s with hst := h' })
+  /-- a custom broadcast accepted by the handler is enqueued -/
+  addCustom : ∀ h' key data, Pres P (modS fun s =>
+    { s with hst := h', custom := addOrReplace s.custom E.handler.invalidates key data s.cfg.maxTx })
 
 section
 variable {E : Env} {P : State → Prop} (L : Leaves E P)
@@ -384,7 +401,8 @@ theorem Leaves.base : Base E P (fun _ => True) where
   sendMessage := L.sendMessage
   addUpdate := L.addUpdate
   modCtl := fun f h => L.modCtl f (fun s => ⟨(h s).1, (h s).2.1, (h s).2.2.1, (h s).2.2.2.1, (h s).2.2.2.2.1⟩)
-  modCustom := L.modCustom
+  setHst := L.setHst
+  addCustom := L.addCustom
 
 theorem Leaves.ctl (f : State → State)
     (h : ∀ s, (f s).ms = s.ms ∧ (f s).numActive = s.numActive ∧ (f s).updates = s.updates ∧
@@ -453,9 +471,10 @@ inductive Reachable (E : Env) : State → Prop
   | step {s s' : State} (op : Op) (orc : Oracle) (eff : List Effect) (r : Res) (left : Oracle) :
       Reachable E s → Foca.step E s op orc = .done s' eff r left → Reachable E s'
 
-theorem Leaves.reachable {E : Env} {P : State → Prop} (L : Leaves E P) {s : State} (h : Reachable E s) : P s := by
+theorem Leaves.reachable {E : Env} {P : State → Prop} (L : Leaves E P)
+    (hinit : ∀ id pol cfg, P (State.init id pol cfg)) {s : State} (h : Reachable E s) : P s := by
   induction h with
-  | init id pol cfg => exact L.init id pol cfg
+  | init id pol cfg => exact hinit id pol cfg
   | step op orc eff r left _ hstep ih =>
     have := L.step _ op orc ih
     rw [hstep] at this
